@@ -263,7 +263,11 @@ func runCtor(count int, _ []string) {
 			continue
 		}
 		b := genAnyBase()
-		for l := rng.Intn(3); l > 0; l-- {
+		depth := rng.Intn(3)
+		if rng.Intn(5) == 0 {
+			depth = 4 + rng.Intn(6) // deep stacks: more layers than the builder's initial capacity; an invalid layer anywhere must be rejected
+		}
+		for l := depth; l > 0; l-- {
 			if rng.Intn(2) == 0 {
 				ks := []int{math.MinInt64, -1, 0, 1, 2, math.MaxInt64}
 				b = &bspec{kind: 'L', k: ks[rng.Intn(len(ks))], inner: b}
